@@ -61,7 +61,7 @@ def run(tier, seed, replay=None):
     build = lib.Build().run()
     rep.proof = lib.compile_props(PID)
     rng = lib.rng_for(seed, PID)
-    n = 500 if tier == 'quick' else 15000
+    n = 500 if tier == 'quick' else 120000
     w = gen.WalText(rng, escaped=False)
     texts = []
     for _ in range(n):
